@@ -11,7 +11,9 @@ package core
 // Asserted: no panic, no error, head = block named by the durable LastBlock
 // pointer (pruning configuration: its nearest ancestor whose state root is
 // durable), head has header/body/TD/state durable, the number index agrees with
-// the head's ancestry down to genesis.
+// the head's ancestry down to genesis; then the original blocks are fed again
+// through the real insertChain2 (real BlockValidator) and the head must
+// converge to the head of the crash-free run.
 //
 // H3-core (VerifC04_ImportWriteFailure): one batch.Write() of the import
 // fails; the error propagates, no chain / trie-database mutex stays held, the
@@ -63,6 +65,8 @@ type c04Run struct {
 	s       *c03Scene
 	archive bool
 	blk     *types.Block // the block whose import is recorded
+	seq     []*types.Block // all blocks in original import order
+	step    int            // index in seq of the recorded import
 	oldHead *types.Block
 	pre     *c02DB
 	log     []c02Write
@@ -83,7 +87,7 @@ func c04Record() *c04Run {
 		_, err := f.imp(seq[i])
 		vs.Assert(err == nil, "import succeeds")
 	}
-	r.blk = seq[step]
+	r.blk, r.seq, r.step = seq[step], seq, step
 	r.oldHead = f.bc.CurrentBlock()
 	r.pre = f.db.clone()
 	return r
@@ -112,7 +116,7 @@ func VerifC04_CrashPrefix() {
 	vs.Observe("kinds", c04Sig(r.log))
 
 	// positions in the log that delimit the two known windows
-	firstRef, flush, firstCanon, firstLB := -1, -1, -1, -1
+	firstRef, flush, firstCanon, firstLB, lbBlk := -1, -1, -1, -1, -1
 	hk := string(headerKey(bh, r.blk.NumberU64()))
 	for i, w := range r.log {
 		if w.batch {
@@ -132,6 +136,9 @@ func VerifC04_CrashPrefix() {
 		}
 		if !op.del && firstLB < 0 && op.k == string(headBlockKey) {
 			firstLB = i
+		}
+		if !op.del && lbBlk < 0 && op.k == string(headBlockKey) && bytes.Equal(op.v, bh[:]) {
+			lbBlk = i
 		}
 	}
 	vs.Assert(flush >= 0, "fixture: the block's header is flushed by a batch write")
@@ -195,6 +202,19 @@ func VerifC04_CrashPrefix() {
 	}
 	vs.Known("", true)
 	vs.Assert(bc2.CurrentHeader() != nil && bc2.CurrentFastBlock() != nil, "header and fast heads restored")
+
+	// feed the original blocks again (one import each, as originally) through the
+	// real insertChain2 + BlockValidator: the head converges to the crash-free head
+	final := f.bc.CurrentBlock()
+	vs.Known("C04-refeed-known-block-not-above-head",
+		r.archive && isReorg && r.blk.NumberU64() <= r.oldHead.NumberU64() && k > flush && k <= lbBlk)
+	for i := 0; i <= r.step; i++ {
+		_, _, _, ierr := bc2.insertChain(types.Blocks{r.seq[i]})
+		vs.Assert(ierr == nil, "re-feeding an original block succeeds")
+	}
+	vs.Assert(bc2.CurrentBlock().Hash() == final.Hash(), "re-feeding the original blocks converges to the crash-free head")
+	vs.Assert(GetHeadBlockHash(crashed) == final.Hash(), "after re-feeding the durable head pointer names the crash-free head")
+	vs.Known("", true)
 	vs.Assert(firstRef < 0 || firstRef > flush, "write order: no canonical number / head pointer names the block before the batch holding its header is flushed")
 }
 
